@@ -8,12 +8,37 @@ bound once to one) are unrolled with the loop variables replaced by the row
 elements; statement-calls of helpers that push onto a list of their caller
 (nested closure, method, module function) are replaced by the helper's body;
 `if c: continue` / `if c: return` guard clauses become if/else; and
-getattr(x, '<literal>'), f-strings with literal fields, 'a' + 'b', 'abc'[1:]
-are folded; `C(text, params)` of a two-field NamedTuple is the pair
-(text, params) and `.field` of an element reads that component.  Locals are
-followed to their single or reaching definition.
-Four closure calls, four `if` blocks and one table-driven loop are therefore
-the same thing to R3 and R7.
+getattr(x, '<literal>') (also getattr(self, '<declared field>', default)),
+f-strings with literal fields, 'a' + 'b', 'abc'[1:], {'k': f, ..}['k'],
+comparisons of literals and the `if` / `match` / conditional expressions they
+decide are folded; `C(text, params)` / `C._make((text, params))` of a
+two-field record class (NamedTuple, plain dataclass) is the pair
+(text, params), `.field` of an element reads that component and a
+one-expression method or property of the class is read through.  A builder
+that to_sql calls with literal arguments (`self._region_condition(table,
+'airport')`, also out of an unrolled loop) is read once per argument tuple
+with the literal in the parameter's place.  Locals are followed to their
+single or reaching definition; a call through a local, a module-level table
+of functions (`TABLE['key']`, `.get`), a module alias or a star re-export
+is followed to the repository function it runs, a module-level text constant
+(own, imported, `alias.NAME`) to its text.
+Four closure calls, four `if` blocks, one table-driven loop and one
+parametrised helper called three times are therefore the same thing to R3
+and R7.
+
+The rules "by evaluation" run the code in the checker's interpreter
+(c13._Interp + _c14_interp below) on each module's own text: names are
+resolved as Python resolves them (definitions, imports from other repository
+modules - functions, classes, constants, modules, star imports, re-exports),
+NamedTuple / namedtuple instances are tuples with named fields, dataclass
+instances their fields (defaults, factories, __post_init__), plain classes
+what __init__ stores; bound methods, static methods and class attributes are
+values.  An input the documentation allows on which the code *fails*
+(TypeError, KeyError, IndexError, AttributeError, ... raised by an operation
+on plain values) is a violation like a refusal; a failure of an operation on
+a stand-in for a repository object is "cannot decide".  The rule groups run
+independently: one group's analysis error does not keep another group's
+violation from being established.
 
 R1  to_sql is pure.  Effects: every attribute of `self` mutated in code reachable from `to_sql` is
     re-initialised before its first mutation in that call - a reset (or a call of a helper that always resets)
@@ -30,7 +55,8 @@ R3  placeholders = parameters.  Symbolic count on the expanded view (see above) 
     the WHERE text is joined from, and the flatten step by abstract evaluation.  Parameters handed out by a helper,
     method or property of the repository are counted in its return(s) (all agreeing; a list grown by unconditional
     append / extend counts its pieces; a comprehension counts the collection it iterates; astuple(x) the fields of
-    x's class; a module-level table its rows).  By evaluation: Filter.to_sql is run
+    x's class; a module-level table its rows; an integer parameter of a text helper - `placeholders(n)` - is the
+    count its caller passes, in whatever module the helper lives).  By evaluation: Filter.to_sql is run
     by the checker's interpreter on a table of filters (every attribute alone with ordinary and zero values, single
     strings and lists, every region type in every position, legal mixes) and must return exactly the documented
     conditions, each with its own parameters in placeholder order (conjuncts compared as a multiset: AND commutes),
@@ -329,8 +355,35 @@ class _Fold(ast.NodeTransformer):
                 return ast.copy_location(ast.Constant(v), n)
         return n
 
+    def visit_Compare(self, n):
+        self.generic_visit(n)
+        if len(n.ops) == 1 and isinstance(n.left, ast.Constant) and isinstance(n.ops[0], (ast.Eq, ast.NotEq, ast.Is, ast.IsNot)):
+            r = n.comparators[0]
+            a = n.left.value
+            if isinstance(r, ast.Constant) and (type(a) is type(r.value)) and isinstance(a, (str, int, bool, type(None))):
+                same = a == r.value
+                return ast.copy_location(ast.Constant(same if isinstance(n.ops[0], (ast.Eq, ast.Is)) else not same), n)
+        if len(n.ops) == 1 and _is_str(n.left) and isinstance(n.ops[0], (ast.In, ast.NotIn)) \
+                and isinstance(n.comparators[0], (ast.Tuple, ast.List, ast.Set)) and all(_is_str(x) for x in n.comparators[0].elts):
+            inside = n.left.value in [x.value for x in n.comparators[0].elts]
+            return ast.copy_location(ast.Constant(inside if isinstance(n.ops[0], ast.In) else not inside), n)
+        return n
+
+    def visit_IfExp(self, n):
+        self.generic_visit(n)
+        if isinstance(n.test, ast.Constant) and isinstance(n.test.value, bool):
+            return n.body if n.test.value else n.orelse
+        return n
+
     def visit_Subscript(self, n):
         self.generic_visit(n)
+        if isinstance(n.value, ast.Dict) and isinstance(n.ctx, ast.Load) and isinstance(n.slice, ast.Constant) \
+                and all(isinstance(k, ast.Constant) for k in n.value.keys) \
+                and all(isinstance(v, (ast.Name, ast.Constant, ast.Attribute, ast.Lambda)) for v in n.value.values):
+            # {'a': f, 'b': g}['a']: the display's values are names, so building it has no effect of its own
+            hit = [v for k, v in zip(n.value.keys, n.value.values) if type(k.value) is type(n.slice.value) and k.value == n.slice.value]
+            if hit:
+                return hit[-1]
         if _is_str(n.value) and isinstance(n.ctx, ast.Load):
             sl = n.slice
             try:
@@ -481,17 +534,48 @@ def _pushes_to_caller(fnode, params) -> bool:
     return False
 
 
+def _live_arm(s):
+    """the statements that run for an `if` / `match` whose test is a constant after folding, else None"""
+    if isinstance(s, ast.If) and isinstance(s.test, ast.Constant) and isinstance(s.test.value, bool):
+        return list(s.body if s.test.value else s.orelse) or [ast.copy_location(ast.Pass(), s)]
+    if isinstance(s, ast.Match) and isinstance(s.subject, ast.Constant):
+        v = s.subject.value
+        for c in s.cases:
+            pats = c.pattern.patterns if isinstance(c.pattern, ast.MatchOr) else [c.pattern]
+            if c.guard is None and all(isinstance(p, ast.MatchValue) and isinstance(p.value, ast.Constant) for p in pats):
+                if any(type(p.value.value) is type(v) and p.value.value == v for p in pats):
+                    return list(c.body)
+                continue
+            if c.guard is None and isinstance(c.pattern, ast.MatchAs) and c.pattern.pattern is None and c.pattern.name is None:
+                return list(c.body)
+            return None
+        return [ast.copy_location(ast.Pass(), s)]
+    return None
+
+
 class _Expander:
-    def __init__(self, prog, fi):
+    def __init__(self, prog, fi, spec=None):
         self.prog = prog
         self.fi = fi
         self.fn = _clone(fi.node)
+        if spec:
+            # the function as it runs when these parameters hold these literals (one call site's arguments)
+            self.fn.body = [_Fold().visit(_clone(s_, dict(spec))) for s_ in fi.node.body]
         self.budget = 800
 
     def run(self):
         fn = self.fn
         fn.body = self.block(fn.body)
         fn = self.fn = _Fold().visit(fn)
+        if self.fi.cls is not None and self.fi.params[:1] == ['self'] and not local_defs(fn, 'self'):
+            # getattr(self, '<declared field>', <default>): the field exists on every instance, the default is never used
+            declared = set(self.fi.cls.all_fields())
+            for x in ast.walk(fn):
+                if isinstance(x, ast.Call) and isinstance(x.func, ast.Name) and x.func.id == 'getattr' and len(x.args) == 3 \
+                        and not x.keywords and isinstance(x.args[0], ast.Name) and x.args[0].id == 'self' and _is_str(x.args[1]) \
+                        and x.args[1].value in declared and isinstance(x.args[2], (ast.Constant, ast.Name)):
+                    x.args = x.args[:2]
+            fn = self.fn = _Fold().visit(fn)
         _CompUnroll(fn).visit(fn)
         _PairLower(self.prog, self.fi.module).visit(fn)
         ast.fix_missing_locations(fn)
@@ -502,8 +586,10 @@ class _Expander:
     def block(self, stmts, depth=0):
         out = []
         for s in stmts:
-            u = None
-            if depth < 5 and isinstance(s, ast.For):
+            u = _live_arm(s) if depth < 5 else None
+            if u is not None:
+                pass
+            elif depth < 5 and isinstance(s, ast.For):
                 u = self.unroll(s)
             elif depth < 5 and isinstance(s, ast.Expr) and isinstance(s.value, ast.Call):
                 u = self.inline(s)
@@ -655,14 +741,18 @@ class _CompUnroll(ast.NodeTransformer):
 
 
 def _pair_classes(prog, module):
-    """{id of class node: [field, field]} for the two-field NamedTuple classes visible in the module: their instances
-    *are* 2-tuples, `C(a, b)` builds the pair (a, b) and `.field` reads one of its components"""
+    """{id of class node: [field, field]} for the two-field record classes of the program (NamedTuple; a dataclass
+    without bases, __init__ or __post_init__): `C(a, b)` holds the pair (a, b) and `.field` reads one of its
+    components (whether such an object can also be unpacked or zipped is the evaluator's question, not the view's)"""
     cache = prog.__dict__.setdefault('_c14_pair_classes', {})
     if module.relpath not in cache:
         out = {}
         for ci in prog.all_classes(src_only=False):
-            if any(b.split('.')[-1] == 'NamedTuple' for b in ci.base_exprs):
-                fields = list(ci.annotated_fields())
+            record = any(b.split('.')[-1] == 'NamedTuple' for b in ci.base_exprs) or \
+                (not ci.bases and '__init__' not in ci.methods and '__post_init__' not in ci.methods and
+                 any(norm(d.func if isinstance(d, ast.Call) else d).split('.')[-1] == 'dataclass' for d in ci.node.decorator_list))
+            if record:
+                fields = [f for f, ann in ci.annotated_fields().items() if 'ClassVar' not in norm(ann)]
                 if len(fields) == 2:
                     out[id(ci.node)] = fields
         cache[module.relpath] = out
@@ -678,6 +768,27 @@ def _pair_fields(prog, module):
     return {f: i for f, i in out.items() if i is not None}
 
 
+def _pair_methods(prog, module):
+    """{name: (is property, returned expression)} for the methods of the pair classes that take only `self` and
+    consist of one `return <expr>` (a name two classes define differently is left out)"""
+    out = {}
+    ids = _pair_classes(prog, module)
+    for ci in prog.all_classes(src_only=False):
+        if id(ci.node) not in ids:
+            continue
+        for name, m in ci.methods.items():
+            body = [b for b in m.node.body if not (isinstance(b, ast.Expr) and _is_str(b.value))]
+            decs = [norm(d) for d in m.node.decorator_list]
+            if m.params == ['self'] and len(body) == 1 and isinstance(body[0], ast.Return) and body[0].value is not None \
+                    and decs in ([], ['property']) and not isinstance(m.node, ast.AsyncFunctionDef):
+                new = (decs == ['property'], body[0].value)
+                if name in out and (out[name] is None or norm(out[name][1]) != norm(new[1]) or out[name][0] != new[0]):
+                    out[name] = None
+                else:
+                    out[name] = new
+    return {k: v for k, v in out.items() if v is not None}
+
+
 class _PairLower(ast.NodeTransformer):
     """Cond(text, params) / Cond(sql=text, params=params) of a two-field NamedTuple  ==>  (text, params)"""
 
@@ -688,6 +799,13 @@ class _PairLower(ast.NodeTransformer):
     def visit_Call(self, n):
         self.generic_visit(n)
         if not self.classes or any(isinstance(a, ast.Starred) for a in n.args) or any(k.arg is None for k in n.keywords):
+            return n
+        if isinstance(n.func, ast.Attribute) and n.func.attr == '_make' and len(n.args) == 1 and not n.keywords \
+                and isinstance(n.args[0], (ast.Tuple, ast.List)) and len(n.args[0].elts) == 2 \
+                and not any(isinstance(x, ast.Starred) for x in n.args[0].elts):
+            ci = self.prog.resolve_class_expr(self.module, n.func.value)       # C._make((text, params))
+            if ci is not None and id(ci.node) in self.classes and any(b.split('.')[-1] == 'NamedTuple' for b in ci.base_exprs):
+                return ast.copy_location(ast.Tuple(elts=list(n.args[0].elts), ctx=ast.Load()), n)
             return n
         ci = self.prog.resolve_class_expr(self.module, n.func)
         fields = self.classes.get(id(ci.node)) if ci is not None else None
@@ -703,12 +821,160 @@ class _PairLower(ast.NodeTransformer):
         return ast.copy_location(ast.Tuple(elts=[vals[f] for f in fields], ctx=ast.Load()), n)
 
 
-def _view(prog, fi):
+def _view(prog, fi, spec=None):
     cache = prog.__dict__.setdefault('_c14_views', {})
-    k = (fi.file, fi.qualname, id(fi.node))
+    k = (fi.file, fi.qualname, id(fi.node), tuple(sorted((p, repr(v.value)) for p, v in (spec or {}).items())))
     if k not in cache:
-        cache[k] = _Expander(prog, fi).run()
+        cache[k] = _Expander(prog, fi, spec).run()
     return cache[k]
+
+
+def _literal_args(callee, c):
+    """{parameter: literal} for the arguments of call c that are literals (str / number / bool / None) and whose
+    parameter the callee never rebinds: the callee can be read with the literal in the parameter's place"""
+    a = callee.node.args
+    if a.vararg or a.kwarg or any(isinstance(x, ast.Starred) for x in c.args) or any(k.arg is None for k in c.keywords):
+        return {}
+    ps = [x.arg for x in a.posonlyargs + a.args]
+    if callee.cls is not None and ps[:1] in (['self'], ['cls']) and isinstance(c.func, ast.Attribute):
+        ps = ps[1:]
+    given = dict(zip(ps, c.args))
+    given.update({k.arg: k.value for k in c.keywords if k.arg in ps[len(c.args):] + [x.arg for x in a.kwonlyargs]})
+    out = {}
+    for p_, v in given.items():
+        if isinstance(v, ast.Constant) and isinstance(v.value, (str, int, float, bool, type(None))) \
+                and not local_defs(callee.node, p_):
+            out[p_] = v
+    return out
+
+
+def _module_name(prog, m, e):
+    """what a name or dotted name of module m denotes in the program model (function, class, ('const', module, name),
+    module), or None: `NAME`, `alias.NAME`, `pkg.mod.NAME`"""
+    def dotted(d, depth=0):
+        r = prog.resolve_dotted(d)
+        if r is None and depth < 4:
+            # `from <module> import *` on the way (the program model follows named re-exports only)
+            mod, _, name = d.rpartition('.')
+            m2 = prog.by_modname.get(mod)
+            if m2 is not None and name in m2.imports and m2.imports[name] != d:
+                return dotted(m2.imports[name], depth + 1)
+            if m2 is not None and not name.startswith('_'):
+                for star in _raw_view(m2)['stars']:
+                    r = dotted(f'{star}.{name}', depth + 1)
+                    if r is not None:
+                        return r
+        return r
+
+    if isinstance(e, ast.Name):
+        r = prog.resolve_name(m, e.id)
+        if r is None and e.id in m.imports:
+            r = dotted(m.imports[e.id])
+        if r is None and e.id not in m.imports and not e.id.startswith('_'):
+            for star in _raw_view(m)['stars']:
+                r = r or dotted(f'{star}.{e.id}')
+        return r
+    d = dotted_name(e) if isinstance(e, ast.Attribute) else None
+    if d:
+        head, _, rest = d.partition('.')
+        if head in m.imports and head not in m.constants and head not in m.functions:
+            return dotted(m.imports[head] + '.' + rest)
+        ci = m.classes.get(head) or (prog.resolve_name(m, head) if head in m.imports else None)
+        if hasattr(ci, 'methods') and rest in ci.methods and \
+                [norm(x) for x in ci.methods[rest].node.decorator_list] == ['staticmethod']:
+            return ci.methods[rest]            # Class.static_method
+    return None
+
+
+def _const_text(prog, m, e, depth=0):
+    """the string a module-level expression of module m denotes (literals, f-strings and sums of those, names of
+    module-level constants bound once - own, imported by name or reached through a module alias), or None"""
+    if depth > 6 or e is None:
+        return None
+    if _is_str(e):
+        return e.value
+    if isinstance(e, ast.JoinedStr):
+        parts = [_const_text(prog, m, v.value if isinstance(v, ast.FormattedValue) and v.conversion == -1 and v.format_spec is None else v, depth + 1)
+                 for v in e.values]
+        return None if any(x is None for x in parts) else ''.join(parts)
+    if isinstance(e, ast.BinOp) and isinstance(e.op, ast.Add):
+        a, b = _const_text(prog, m, e.left, depth + 1), _const_text(prog, m, e.right, depth + 1)
+        return None if a is None or b is None else a + b
+    if isinstance(e, (ast.Name, ast.Attribute)):
+        r = _module_name(prog, m, e)
+        if isinstance(r, tuple) and r[0] == 'const':
+            return _const_text(prog, r[1], _module_once(r[1], r[2]), depth + 1)
+    return None
+
+
+def _function_value(prog, m, e, depth=0):
+    """the repository function an expression of module m denotes without running anything: a function's name (own
+    or imported), a module-level name bound once to one, an entry `TABLE['key']` / `TABLE.get('key'[, default])` of a
+    module-level dict display (own or imported, bound once, never stored into) whose values are such names"""
+    if depth > 4 or e is None:
+        return None
+    if isinstance(e, ast.Lambda) and depth > 0:
+        from ..loader import FunctionInfo
+        node = ast.FunctionDef(name='<lambda>', args=e.args, body=[ast.copy_location(ast.Return(value=e.body), e)], decorator_list=[])
+        return FunctionInfo('<lambda>', ast.fix_missing_locations(ast.copy_location(node, e)), m, None)    # a table entry
+    if isinstance(e, (ast.Name, ast.Attribute)):
+        r = _module_name(prog, m, e)
+        if hasattr(r, 'qualname'):
+            return r
+        if isinstance(r, tuple) and r[0] == 'const':
+            return _function_value(prog, r[1], _module_once(r[1], r[2]), depth + 1)
+        return None
+    key = tbl = None
+    if isinstance(e, ast.Subscript):
+        key, tbl = e.slice, e.value
+    elif isinstance(e, ast.Call) and isinstance(e.func, ast.Attribute) and e.func.attr == 'get' and len(e.args) in (1, 2) and not e.keywords:
+        key, tbl = e.args[0], e.func.value
+    if not isinstance(key, ast.Constant) or not isinstance(tbl, (ast.Name, ast.Attribute)):
+        return None
+    r = _module_name(prog, m, tbl)
+    if not (isinstance(r, tuple) and r[0] == 'const'):
+        return None
+    d = _module_once(r[1], r[2])
+    if not isinstance(d, ast.Dict) or any(not isinstance(k, ast.Constant) for k in d.keys):
+        return None
+    hit = [v for k, v in zip(d.keys, d.values) if type(k.value) is type(key.value) and k.value == key.value]
+    if not hit and isinstance(e, ast.Call) and len(e.args) == 2:
+        return _function_value(prog, m, e.args[1], depth + 1)        # TABLE.get('key', <default>) without such a key
+    return _function_value(prog, r[1], hit[-1], depth + 1) if hit else None
+
+
+def _module_once(m, name):
+    """the expression a module-level name is bound to, when it is bound exactly once at module level and the module
+    never stores into it or calls a mutating method on it; else None"""
+    n = 0
+    for st in m.tree.body:
+        for t, _, _ in stores_to(st):
+            if isinstance(t, ast.Name) and t.id == name:
+                n += 1
+    if n != 1:
+        return None
+    for x in ast.walk(m.tree):
+        if isinstance(x, ast.Subscript) and isinstance(x.ctx, (ast.Store, ast.Del)) and isinstance(x.value, ast.Name) and x.value.id == name:
+            return None
+        if isinstance(x, ast.Call) and isinstance(x.func, ast.Attribute) and x.func.attr in MUTATING_METHODS \
+                and isinstance(x.func.value, ast.Name) and x.func.value.id == name:
+            return None
+    return m.constants.get(name)
+
+
+def _callee(prog, fi, c):
+    """the repository function a call runs: the resolver's answer, or - for a call through a local or a table entry -
+    the function the expression denotes (see _function_value)"""
+    r = resolve_call(prog, fi, c)
+    if r is not None:
+        return r
+    f = c.func
+    if isinstance(f, ast.Name) and (local_defs(fi.node, f.id) or f.id in fi.params):
+        d = _resolve(fi, f)
+        if d is f:
+            return None
+        f = d
+    return _function_value(prog, fi.module, f)
 
 
 def _block_of(st):
@@ -962,6 +1228,8 @@ class _Count:
 
     def count_of(self, fi, e, env, depth=0) -> Counter | None:
         """an integer expression"""
+        if isinstance(e, ast.Name) and '#' + e.id in env and not local_defs(fi.node, e.id):
+            return env['#' + e.id]        # an integer parameter of a helper: the count its caller passes
         e = _resolve(fi, e)
         if depth > 6:
             return None
@@ -1074,6 +1342,11 @@ class _Count:
                     d = single_def_value(f2.node, e.id)
                     if d is not None:
                         return self.q(f2, d, env, depth + 1)
+            shadowed = any(local_defs(g.node, e.id) or e.id in g.params for q_, g in fi.module.functions.items()
+                           if fi.qualname == q_ or fi.qualname.startswith(q_ + '.<locals>.'))
+            t = None if shadowed else _const_text(self.prog, fi.module, e)   # a module-level text constant (own or imported)
+            if t is not None:
+                return Counter({'1': t.count('?')}) if '?' in t else Counter()
             return None
         if isinstance(e, ast.Call):
             if isinstance(e.func, ast.Attribute) and e.func.attr == 'join' and len(e.args) == 1 and not e.keywords:
@@ -1085,18 +1358,28 @@ class _Count:
                 return self.q(fi, e.args[0], env, depth + 1)
             # a helper of the repository that returns the text: count in its single return, with the lengths
             # expressed in the caller's collections
-            callee = resolve_call(self.prog, fi, e)
-            if callee is not None and callee.module is fi.module and not e.keywords:
+            callee = _callee(self.prog, fi, e)
+            if callee is not None and not e.keywords and not any(isinstance(a, ast.Starred) for a in e.args) \
+                    and not isinstance(callee.node, ast.AsyncFunctionDef) \
+                    and all(norm(d) in ('staticmethod', 'classmethod') for d in callee.node.decorator_list):
                 ps = callee.params
                 if callee.cls is not None and ps[:1] in (['self'], ['cls']) and isinstance(e.func, ast.Attribute):
                     ps = ps[1:]
                 rets = [n for n in walk_no_nested(callee.node) if isinstance(n, ast.Return)]
                 if len(rets) == 1 and rets[0].value is not None and len(e.args) == len(ps):
                     env2 = {'@' + p: self.sym(fi, a, env) for p, a in zip(ps, e.args)}
+                    for p, a in zip(ps, e.args):
+                        c = self.count_of(fi, a, env)
+                        if c is not None:
+                            env2['#' + p] = c
                     return self.q(callee, rets[0].value, env2, depth + 1)
             return None
         if isinstance(e, ast.Attribute) and norm(e) in ('self._where_clause',):
             return Counter()
+        if isinstance(e, ast.Attribute) and _root_name(e) not in fi.params and not local_defs(fi.node, _root_name(e) or ''):
+            t = _const_text(self.prog, fi.module, e)      # alias.CONSTANT of another module
+            if t is not None:
+                return Counter({'1': t.count('?')}) if '?' in t else Counter()
         return None
 
     # -- parameters pushed with it
@@ -1312,11 +1595,12 @@ class _Flatten:
     'listified' (seconds, each wrapped into a list unless it is one), 'flat' (seconds flattened in order),
     ('pair', a, b), ('join', sep, v), ('str', s), 'empty', ('bad', why), None (unknown)."""
 
-    def __init__(self, view, conds: str, fields=None):
+    def __init__(self, view, conds: str, fields=None, methods=None):
         self.fn = view.node
         self.C = conds
         self.bound = {}
         self.fields = fields or {}  # component names of pair classes: {'sql': 0, 'params': 1}
+        self.methods = methods or {}  # one-expression methods / properties of pair classes: {'flat': (False, <expr>)}
 
     def elem(self, e):
         """what one loop / comprehension element expression denotes"""
@@ -1326,11 +1610,33 @@ class _Flatten:
             i = const_value(e.slice)
             return {0: 'e1', 1: 'e2', -2: 'e1', -1: 'e2'}.get(i)
         if isinstance(e, ast.Attribute) and isinstance(e.value, ast.Name) and self.bound.get(e.value.id) == 'e12':
+            if e.attr not in self.fields and self.methods.get(e.attr, (False,))[0]:
+                return self._through(self.methods[e.attr][1])
             return {0: 'e1', 1: 'e2'}.get(self.fields.get(e.attr))
+        if isinstance(e, ast.Call) and not e.args and not e.keywords and isinstance(e.func, ast.Attribute) \
+                and isinstance(e.func.value, ast.Name) and self.bound.get(e.func.value.id) == 'e12' \
+                and e.func.attr in self.methods and not self.methods[e.func.attr][0]:
+            return self._through(self.methods[e.func.attr][1])
         x = _listify_subject(e)
         if x is not None and self.elem(x) == 'e2':
             return 'eL'
         return None
+
+    def _through(self, expr):
+        """what a method / property of the element's class returns: its expression read with `self` = the element"""
+        if getattr(self, '_nest', 0) > 2:
+            return None
+        saved = self.bound.get('self')
+        self.bound['self'] = 'e12'
+        self._nest = getattr(self, '_nest', 0) + 1
+        try:
+            return self.elem(expr)
+        finally:
+            self._nest -= 1
+            if saved is None:
+                self.bound.pop('self', None)
+            else:
+                self.bound['self'] = saved
 
     def bind(self, target, it):
         """bind loop targets for iteration over abstract value it; False if not understood"""
@@ -1514,23 +1820,37 @@ def rule_placeholders(ctx):
     ts = fcls.find_method('to_sql')
     tv = _view(prog, ts)
     pfields = _pair_fields(prog, fm)
+    pmeths = _pair_methods(prog, fm)
     # condition builders: the other methods of Filter that return (text, parameters) pairs
-    builders = {}
+    generic = {}
     for m in fcls.methods.values():
         if m is ts or m.qualname == ts.qualname:
             continue
         v = _view(prog, m)
         pairs = _pairs_into(v)
         if pairs:
-            builders[m.qualname] = (v, pairs)
-    ctx.floor('C14-R3/builders', len(builders), 4, 'methods of Filter returning (text, parameters) pairs')
-    # the list of pairs in to_sql: the local that receives the builders' results / pushed pairs
+            generic[m.qualname] = (m, v, pairs)
+    # the list of pairs in to_sql: the local that receives the builders' results / pushed pairs.  A builder that
+    # to_sql calls with literal arguments (`self._region_condition(table, 'airport')`, also from an unrolled loop over a
+    # literal table) is read once per argument tuple, with the literal in the parameter's place: three calls of one
+    # parametrised method are three builders, exactly as three methods are
+    builders = {}
     into = {}
     for name, e in _list_inflows(tv):
         for c in [x for x in ast.walk(e) if isinstance(x, ast.Call)]:
             callee = resolve_call(prog, tv, c)
-            if callee is not None and callee.qualname in builders:
-                into.setdefault(name, set()).add(callee.qualname)
+            if callee is not None and callee.qualname in generic:
+                spec = _literal_args(callee, c)
+                label = callee.qualname + ('[' + ', '.join(f'{k}={v.value!r}' for k, v in sorted(spec.items())) + ']' if spec else '')
+                if label not in builders:
+                    v = _view(prog, generic[callee.qualname][0], spec) if spec else generic[callee.qualname][1]
+                    builders[label] = (v, _pairs_into(v))
+                into.setdefault(name, set()).add(label)
+    for q, (m, v, pairs) in generic.items():
+        if not any(lb == q or lb.startswith(q + '[') for lb in builders):
+            builders[q] = (v, pairs)
+    ctx.floor('C14-R3/builders', len(builders), 4, 'condition builders of Filter (methods returning (text, parameters) pairs, '
+              'counted once per tuple of literal arguments to_sql calls them with)')
     cands = set(into)
     for t in walk_no_nested(tv.node):
         if isinstance(t, ast.Tuple) and len(t.elts) == 2 and isinstance(t.ctx, ast.Load):
@@ -1547,7 +1867,7 @@ def rule_placeholders(ctx):
     shaped = []
     for c in sorted(cands):
         for r, v in rets:
-            tvv = _Flatten(tv, c, pfields).val(v.elts[0])
+            tvv = _Flatten(tv, c, pfields, pmeths).val(v.elts[0])
             if isinstance(tvv, tuple) and tvv[0] == 'join' and tvv[2] == 'firsts':
                 shaped.append(c)
                 break
@@ -1601,7 +1921,7 @@ def rule_placeholders(ctx):
     # flatten step in to_sql
     general = 0
     for r, v in rets:
-        a, b = _Flatten(tv, conds, pfields).val(v.elts[0]), _Flatten(tv, conds, pfields).val(v.elts[1])
+        a, b = _Flatten(tv, conds, pfields, pmeths).val(v.elts[0]), _Flatten(tv, conds, pfields, pmeths).val(v.elts[1])
         what = f'return {norm(v)[:90]}'
         if a == ('str', '') and b == 'empty':
             facts = [f for t, pol, _ in guards_of(r) for at, p in conjuncts(t, pol) for f in [_emptiness_fact(at, p, conds)]]
@@ -1756,17 +2076,82 @@ _SPATIAL_KINDS = ('airport', 'country', 'continent', 'bounding_box')
 _POSITIONS = ('', 'origin_', 'destination_')
 
 
+class _Mod:
+    """a repository module as a value of the interpreter (`from . import helpers`, `import AEIC.x.y as z`)"""
+    def __init__(self, m):
+        self.m = m
+
+
+def _raw_view(m):
+    """classes and imports of a module *as written* (its own text, before the loader's passes; the companion of
+    c13._raw_index, which has the functions and constants): {'classes': name -> ClassDef, 'imports': name -> dotted,
+    'stars': [modules imported with *]}"""
+    v = m.__dict__.get('_c14_raw')
+    if v is not None:
+        return v
+    classes, imports = {}, {}
+    try:
+        tree = ast.parse(m.source)
+    except SyntaxError:
+        tree = None
+    parts = m.modname.split('.')
+    is_pkg = m.relpath.endswith('__init__.py')
+
+    def walk(body):
+        for s in body:
+            if isinstance(s, ast.ClassDef):
+                classes.setdefault(s.name, s)
+            elif isinstance(s, ast.Import):
+                for a in s.names:
+                    imports[a.asname or a.name.split('.')[0]] = a.name if a.asname else a.name.split('.')[0]
+            elif isinstance(s, ast.ImportFrom):
+                if s.level:
+                    base = parts if is_pkg else parts[:-1]
+                    base = base[:len(base) - (s.level - 1)]
+                    mod = '.'.join(base + ([s.module] if s.module else []))
+                else:
+                    mod = s.module or ''
+                for a in s.names:
+                    if a.name == '*':
+                        stars.append(mod)
+                    else:
+                        imports[a.asname or a.name] = f'{mod}.{a.name}'
+            elif isinstance(s, (ast.If, ast.Try, ast.With)):
+                walk(s.body)
+                walk(getattr(s, 'orelse', []))
+    stars = []
+    if tree is not None:
+        walk(tree.body)
+    v = {'classes': classes, 'imports': imports, 'stars': stars}
+    m.__dict__['_c14_raw'] = v
+    return v
+
+
 def _c14_interp(prog):
     """The checker's interpreter of extracted functions (sa/rules/c13.py: explicit values, nothing of the repository
     is imported or run) with what the query code needs on top: reflection on a record's own fields (getattr / setattr /
     hasattr), map, in-place `+=` on lists and on attributes, typing.cast, and a model of the three library values the
     date bounds are made of - datetime.UTC, pd.Timestamp(<date>, tzinfo=/tz=) and datetime's timestamp() /
     astimezone().  A naive datetime has no zone of its own: where the library would read the *process's* local zone the
-    model uses UTC+05:45, so anything that depends on it shows up as a wrong instant instead of passing by accident."""
+    model uses UTC+05:45, so anything that depends on it shows up as a wrong instant instead of passing by accident.
+
+    The interpreter reads every module's *own text*.  So the names of a module are resolved on that text as Python
+    resolves them: a class the module defines (whether or not the loader's structural passes kept it), a name
+    imported from another repository module - function, class, constant (evaluated once, in the module that defines
+    it: a dict display of functions is a dict of those functions), a module itself (`mod.f(x)`, `mod.CONST`),
+    re-exports followed.  Record classes: an instance of a NamedTuple class (or of `collections.namedtuple(...)`) is
+    a tuple with named fields - unpacking, indexing, zip(*rows), equality with a plain tuple, `.field`, `_replace`,
+    `_asdict`, `_make`, `_fields`, defaults, methods and properties of the class; a dataclass instance is its fields
+    (defaults and default factories filled in, then __post_init__; dataclasses.replace builds a new one); a plain
+    class is what its __init__ stores.  isinstance() against repository classes is answered from the class's bases."""
+    import collections as _collections
     import datetime as _dt
+    from ..astutil import LOG_CALLS
+    from ..loader import ClassInfo, FunctionInfo
     from .c13 import _Interp, _Rec, _Fn, _ClassRef, _Undecidable, _Raised, _BINOPS, _Ctx, _raw_index, _is_enum
 
     import math as _math
+    _held = iter(range(1, 1 << 62))
     LOCAL = _dt.timezone(_dt.timedelta(hours=5, minutes=45))
     MATH_FUNCS = {'floor', 'ceil', 'trunc', 'fabs', 'fmod', 'remainder', 'copysign', 'isclose', 'isfinite', 'isnan', 'isinf',
                   'radians', 'degrees', 'sqrt', 'modf', 'sin', 'cos', 'tan', 'asin', 'acos', 'atan', 'atan2', 'hypot', 'pow'}
@@ -1779,6 +2164,10 @@ def _c14_interp(prog):
             # (module, node) of the operations / statements being evaluated, innermost last: what a traced value
             # (rule R7) reads to say *where* something was computed from it
             self.nodes = []
+            self._rawcls = {}     # (id(module), class name) -> ClassInfo built from the module's own text
+            self._nt = {}         # id(ClassInfo) -> the tuple type standing for a NamedTuple class
+            self._nt_types = {}   # that type (or one made by collections.namedtuple) -> ClassInfo | None
+            self._depth = 0
 
         def _method_node(self, ci, name):
             for c in ci.mro():
@@ -1789,12 +2178,221 @@ def _c14_interp(prog):
                     return c, node
             return None, None
 
+        @staticmethod
+        def guard(f, args, kwargs=None):
+            """a builtin operation on plain values does what Python does, exceptions included; when it *fails* on a
+            value that stands for a repository object (which may define the protocol the operation asks for: __len__,
+            __lt__, __str__ of a str-enum, ...) the model does not know what Python would do"""
+            try:
+                return f(*args, **(kwargs or {}))
+            except (_Undecidable, _Raised):
+                raise
+            except Exception as ex:
+                def repo(v, d=0):
+                    if isinstance(v, (_Rec, _Fn, _ClassRef, _Mod)):
+                        return True
+                    if d < 3 and isinstance(v, (list, tuple, set, frozenset)):
+                        return any(repo(x, d + 1) for x in list(v)[:64])
+                    if d < 3 and isinstance(v, dict):
+                        return any(repo(x, d + 1) for kv in list(v.items())[:64] for x in kv)
+                    return False
+                if any(repo(a) for a in list(args) + list((kwargs or {}).values())):
+                    raise _Undecidable(f'{getattr(f, "__name__", "operation")} on a repository object: {type(ex).__name__}({ex})') from None
+                raise _Raised(ex) from None
+
+        # ---- names of a module, resolved on its own text ------------------------------------------------
+        def imports_of(self, m):
+            return {**m.imports, **_raw_view(m)['imports']}
+
+        def class_of(self, m, name):
+            """ClassInfo of a class the module's text defines: the program model's when it (still) has the class,
+            otherwise one built from the text (a record class the structural passes erased, a class they put back
+            into the module it came from)"""
+            ci = m.classes.get(name)
+            if ci is not None:
+                return ci
+            key = (id(m), name)
+            if key not in self._rawcls:
+                node = _raw_view(m)['classes'][name]
+                ci = self._rawcls[key] = ClassInfo(name, node, m)
+                ci.base_exprs = [ast.unparse(b) for b in node.bases]
+                for b in node.bases:
+                    b = b.value if isinstance(b, ast.Subscript) else b
+                    try:
+                        v = self.eval(b, _Ctx(m), [{}])
+                    except _Undecidable:
+                        continue
+                    if isinstance(v, _ClassRef) and v.ci is not ci:
+                        ci.bases.append(v.ci)
+                for s_ in node.body:
+                    if isinstance(s_, (ast.FunctionDef, ast.AsyncFunctionDef)):
+                        ci.methods.setdefault(s_.name, FunctionInfo(f'{name}.{s_.name}', s_, m, ci))
+            return self._rawcls[key]
+
+        def binds(self, m, name, depth=0):
+            """does the module's text bind the name at module level (definition, assignment, import, star import)?"""
+            idx, raw = _raw_index(m), _raw_view(m)
+            if name in idx['functions'] or name in idx['constants'] or name in raw['classes'] or name in raw['imports']:
+                return True
+            if depth < 4:
+                for star in raw['stars']:
+                    m2 = self.prog.by_modname.get(star)
+                    if m2 is not None and m2 is not m and not name.startswith('_') and self.binds(m2, name, depth + 1):
+                        return True
+            return False
+
+        def bound_method(self, recv, ci, name):
+            """<record>.<method> as a value: calling it calls the method on that record"""
+            call = ast.Call(func=ast.Attribute(value=ast.Name(id='\x00self', ctx=ast.Load()), attr=name, ctx=ast.Load()),
+                            args=[ast.Starred(value=ast.Name(id='\x00a', ctx=ast.Load()), ctx=ast.Load())],
+                            keywords=[ast.keyword(arg=None, value=ast.Name(id='\x00k', ctx=ast.Load()))])
+            node = ast.FunctionDef(name=name, args=ast.arguments(posonlyargs=[], args=[], vararg=ast.arg(arg='\x00a'), kwonlyargs=[],
+                                                                 kw_defaults=[], kwarg=ast.arg(arg='\x00k'), defaults=[]),
+                                   body=[ast.Return(value=call)], decorator_list=[])
+            c, mnode = self._method_node(ci, name)
+            ast.fix_missing_locations(ast.copy_location(node, mnode))
+            return _Fn(_Ctx(c.module), node, [{'\x00self': recv}])
+
+        def class_attr(self, ci, name):
+            """a class attribute that is not an instance field: a method as a plain function (static, or read from the
+            class), a class-level constant, `name = staticmethod(f)`; (found, value)"""
+            c, node = self._method_node(ci, name)
+            if node is not None:
+                decs = [ast.unparse(d) for d in node.decorator_list]
+                if decs in ([], ['staticmethod']):
+                    return True, _Fn(_Ctx(c.module), node, [])
+                if decs == ['classmethod']:
+                    return True, self.bound_method(_ClassRef(ci), ci, name)
+                return False, None
+            for c in ci.mro():
+                v = c.class_assignments().get(name)
+                ann = c.annotated_fields().get(name)
+                if v is not None and (ann is None or 'ClassVar' in norm(ann)):
+                    if isinstance(v, ast.Call) and call_name(v) == 'staticmethod' and len(v.args) == 1 and not v.keywords:
+                        v = v.args[0]
+                    return True, self.eval(v, _Ctx(c.module), [{}])
+            return False, None
+
+        def member(self, mod, name):
+            """<module>.<name>: what the name means in that module; a sub-module of a package"""
+            self.prog.consulted.add(mod.m.relpath)
+            self._depth += 1
+            try:
+                if self._depth > 12:
+                    raise _Undecidable(f'import chain through {mod.m.modname}.{name}')
+                try:
+                    return self.lookup(name, _Ctx(mod.m), [])
+                except _Undecidable:
+                    sub = self.prog.by_modname.get(f'{mod.m.modname}.{name}')
+                    if sub is None:
+                        raise
+                    return _Mod(sub)
+            finally:
+                self._depth -= 1
+
+        def repo_target(self, dotted):
+            """the value an import of `dotted` binds when it leads into the repository, else None"""
+            parts = dotted.split('.')
+            for i in range(len(parts), 0, -1):
+                m2 = self.prog.by_modname.get('.'.join(parts[:i]))
+                if m2 is not None:
+                    v = _Mod(m2)
+                    for a in parts[i:]:
+                        if not isinstance(v, _Mod):
+                            raise _Undecidable(f'import of {dotted}')
+                        v = self.member(v, a)
+                    return v
+            return None
+
+        # ---- records ------------------------------------------------------------------------------------
+        def nt_home(self, ci):
+            """the class of ci's bases that is declared a NamedTuple (its annotated fields are the tuple's), or None"""
+            for c in ci.mro():
+                if any(b.split('.')[-1] == 'NamedTuple' for b in c.base_exprs):
+                    return c
+            return None
+
+        def nt_type(self, ci):
+            home = self.nt_home(ci)
+            if id(home) not in self._nt:
+                fields = list(home.annotated_fields())
+                ca = home.class_assignments()
+                dflt = [self.eval(ca[f], _Ctx(home.module), [{}]) for f in fields if ca.get(f) is not None]
+                if any(ca.get(f) is None for f in fields[len(fields) - len(dflt):]):
+                    raise _Undecidable(f'field order of {home.name}')
+                t = self.guard(_collections.namedtuple, [home.name, fields], {'defaults': dflt})
+                self._nt[id(home)] = t
+                self._nt_types[t] = home
+            return self._nt[id(home)]
+
+        def is_nt(self, v):
+            return isinstance(v, tuple) and type(v) in self._nt_types
+
+        def call_value(self, f, args, kwargs, e, fi, sc):
+            """call a value of the interpreter with values already evaluated"""
+            keys = [f'\x00v{next(_held)}' for _ in range(1 + len(args) + len(kwargs))]
+            sc[-1].update(zip(keys, [f] + list(args) + list(kwargs.values())))
+            ld = lambda k: ast.Name(id=k, ctx=ast.Load())
+            call = ast.Call(func=ld(keys[0]), args=[ld(k) for k in keys[1:1 + len(args)]],
+                            keywords=[ast.keyword(arg=n_, value=ld(k)) for n_, k in zip(kwargs, keys[1 + len(args):])])
+            try:
+                return self._eval_call(ast.fix_missing_locations(ast.copy_location(call, e)), fi, sc)
+            finally:
+                for k in keys:
+                    sc[-1].pop(k, None)
+
+        def instance_of(self, v, spec):
+            """isinstance(v, spec) where spec may name repository classes"""
+            if isinstance(spec, tuple):
+                return any(self.instance_of(v, s_) for s_ in spec)
+            if isinstance(spec, _ClassRef):
+                if isinstance(v, _Rec) and v.ci is not None:
+                    return any(c is spec.ci or (c.name == spec.ci.name and c.module is spec.ci.module) for c in v.ci.mro())
+                if self.is_nt(v):
+                    home = self._nt_types[type(v)]
+                    return home is not None and self.nt_home(spec.ci) is home
+                return False
+            if isinstance(spec, type):
+                if isinstance(v, _Rec):
+                    if v.ci is not None and _is_enum(v.ci) and spec in (str, int):
+                        bases = {b.split('.')[-1] for c in v.ci.mro() for b in c.base_exprs}
+                        return bool(bases & ({'StrEnum', 'str'} if spec is str else {'IntEnum', 'IntFlag', 'int'}))
+                    return spec is object
+                return isinstance(v, spec)
+            raise _Undecidable('isinstance against this value')
+
         def construct(self, ci, args, kwargs):
-            """a dataclass instance is what its generated __init__ leaves behind: the fields in declaration order,
-            then __post_init__"""
+            """a NamedTuple instance is a tuple with named fields; a dataclass instance is what its generated __init__
+            leaves behind: the fields in declaration order (defaults filled in), then __post_init__; an instance of a
+            class with an __init__ of its own is what that stores"""
+            if not _is_enum(ci):
+                if self.nt_home(ci) is not None:
+                    return self.guard(self.nt_type(ci), args, kwargs)
+                c, node = self._method_node(ci, '__init__')
+                if node is not None:
+                    if node.decorator_list:
+                        raise _Undecidable(f'decorated {ci.name}.__init__')
+                    rec = _Rec(ci.name, {}, ci)
+                    self.call_fn(_Fn(_Ctx(c.module), node, []), [rec] + list(args), kwargs)
+                    return rec
             rec = super().construct(ci, args, kwargs)
+            if _is_enum(ci):
+                return rec
+            for c_ in reversed(ci.mro()):
+                for k, v in c_.class_assignments().items():
+                    if k in rec.fields or v is None or k not in c_.annotated_fields() or 'ClassVar' in norm(c_.annotated_fields()[k]):
+                        continue
+                    if isinstance(v, ast.Call) and call_name(v).split('.')[-1] == 'field':
+                        kw = {x.arg: x.value for x in v.keywords}
+                        if 'default' in kw:
+                            rec.fields[k] = self.eval(kw['default'], _Ctx(c_.module), [{}])
+                        elif 'default_factory' in kw:
+                            sc = [{}]
+                            rec.fields[k] = self.call_value(self.eval(kw['default_factory'], _Ctx(c_.module), sc), [], {}, v, _Ctx(c_.module), sc)
+                    else:
+                        rec.fields[k] = self.eval(v, _Ctx(c_.module), [{}])
             c, node = self._method_node(ci, '__post_init__')
-            if node is not None and not _is_enum(ci):
+            if node is not None:
                 order = [k for k in ci.all_fields() if k in rec.fields]
                 rec.fields = {**{k: rec.fields[k] for k in order}, **{k: v for k, v in rec.fields.items() if k not in order}}
                 if node.decorator_list:
@@ -1806,7 +2404,23 @@ def _c14_interp(prog):
             for s_ in reversed(scopes):
                 if name in s_:
                     return s_[name]
-            tgt = fi.module.imports.get(name)
+            m = fi.module
+            idx, raw = _raw_index(m), _raw_view(m)
+            if name not in idx['functions']:
+                if name in raw['classes']:
+                    return _ClassRef(self.class_of(m, name))
+                if name in raw['imports'] and name not in idx['constants']:
+                    r = self.repo_target(raw['imports'][name])
+                    if r is not None:
+                        return r
+                    if raw['imports'][name] == 'collections.namedtuple':
+                        return _collections.namedtuple
+                if name not in idx['constants'] and name not in raw['imports'] and not name.startswith('_'):
+                    for star in raw['stars']:        # from <repository module> import *
+                        m2 = self.prog.by_modname.get(star)
+                        if m2 is not None and m2 is not m and self.binds(m2, name):
+                            return self.member(_Mod(m2), name)
+            tgt = self.imports_of(m).get(name)
             if tgt == 'datetime.UTC':
                 return _dt.timezone.utc
             if tgt == 'datetime.timezone':
@@ -1826,7 +2440,7 @@ def _c14_interp(prog):
                     self.nodes.pop()
             if isinstance(e, ast.Attribute):
                 if isinstance(e.value, ast.Name) and e.attr in MATH_CONSTS and not any(e.value.id in s_ for s_ in sc) \
-                        and fi.module.imports.get(e.value.id) == 'math':
+                        and self.imports_of(fi.module).get(e.value.id) == 'math':
                     return getattr(_math, e.attr)
                 if isinstance(e.value, ast.Name) and e.value.id in ('time', 'timezone', 'datetime', 'date') and e.attr in ('min', 'max', 'utc'):
                     v = self.eval(e.value, fi, sc)
@@ -1834,6 +2448,22 @@ def _c14_interp(prog):
                         return getattr(v, e.attr)
                 # <record>.<property>: the value its getter returns
                 v = self.eval(e.value, fi, sc)
+                if isinstance(v, _Mod):
+                    return self.member(v, e.attr)
+                if self.is_nt(v):
+                    if e.attr in type(v)._fields or e.attr == '_fields':
+                        return getattr(v, e.attr)
+                    home = self._nt_types[type(v)]
+                    c, node = self._method_node(home, e.attr) if home is not None else (None, None)
+                    if node is not None and [ast.unparse(d) for d in node.decorator_list] == ['property']:
+                        return self.call_fn(_Fn(_Ctx(c.module), node, []), [v], {})
+                    raise _Undecidable(f'attribute {e.attr} of a {type(v).__name__}')
+                if isinstance(v, _ClassRef) and e.attr == '_fields' and not _is_enum(v.ci) and self.nt_home(v.ci) is not None:
+                    return self.nt_type(v.ci)._fields
+                if isinstance(v, _ClassRef) and not (_is_enum(v.ci) and e.attr in v.ci.class_assignments()):
+                    found, val = self.class_attr(v.ci, e.attr)
+                    if found:
+                        return val
                 if isinstance(v, _Rec) and e.attr not in v.fields:
                     c, node = self._method_node(v.ci, e.attr)
                     if node is not None and [ast.unparse(d) for d in node.decorator_list] in \
@@ -1843,6 +2473,12 @@ def _c14_interp(prog):
                             return self.call_fn(_Fn(_Ctx(c.module), node, []), [v], {})
                         finally:
                             self.nodes.pop()
+                    if node is not None and not node.decorator_list and not _is_enum(v.ci):
+                        return self.bound_method(v, v.ci, e.attr)
+                    if node is None and not _is_enum(v.ci):
+                        found, val = self.class_attr(v.ci, e.attr)
+                        if found:
+                            return val
                 held = ast.copy_location(ast.Name(id='\x00recv', ctx=ast.Load()), e)
                 return super().eval(ast.copy_location(ast.Attribute(value=held, attr=e.attr, ctx=ast.Load()), e), fi,
                                     sc + [{'\x00recv': v}])
@@ -1914,19 +2550,43 @@ def _c14_interp(prog):
             return v
 
         def eval_call(self, e, fi, sc):
-            nm = call_name(e)
+            """the receiver of a method call is evaluated once: a receiver that is more than a name is evaluated here
+            and held under a private name, so that every case below (and the base interpreter) reads a name"""
+            if isinstance(e.func, ast.Attribute) and not isinstance(e.func.value, ast.Constant) \
+                    and dotted_name(e.func.value) is None and not call_name(e).startswith(LOG_CALLS):
+                key = f'\x00r{next(_held)}'
+                sc[-1][key] = self.eval(e.func.value, fi, sc)
+                held = ast.copy_location(ast.Name(id=key, ctx=ast.Load()), e.func.value)
+                call = ast.copy_location(ast.Call(func=ast.copy_location(ast.Attribute(value=held, attr=e.func.attr, ctx=ast.Load()), e.func),
+                                                  args=e.args, keywords=e.keywords), e)
+                try:
+                    return self._eval_call(call, fi, sc, call_name(e))
+                finally:
+                    sc[-1].pop(key, None)
+            return self._eval_call(e, fi, sc)
+
+        def _eval_call(self, e, fi, sc, nm=None):
+            nm = nm or call_name(e)
+            imports = self.imports_of(fi.module)
             plain = not e.keywords and not any(isinstance(a, ast.Starred) for a in e.args)
             if isinstance(e.func, ast.Name) and e.func.id == 'cast' and len(e.args) == 2 and plain \
-                    and fi.module.imports.get('cast') == 'typing.cast':
+                    and imports.get('cast') == 'typing.cast':
                 return self.eval(e.args[1], fi, sc)
             if nm.split('.')[-1] in MATH_FUNCS and plain and not any(nm.split('.')[0] in s_ for s_ in sc) and \
-                    fi.module.imports.get(nm.split('.')[0]) in ('math', 'math.' + nm):
+                    imports.get(nm.split('.')[0]) in ('math', 'math.' + nm):
                 args = [self.eval(a, fi, sc) for a in e.args]
                 if all(isinstance(a, (int, float)) for a in args):
                     return self.guard(getattr(_math, nm.split('.')[-1]), args)
                 raise _Undecidable(f'{nm} of these values')
+            if nm.split('.')[-1] == 'replace' and len(e.args) == 1 and all(k.arg for k in e.keywords) and \
+                    not isinstance(e.args[0], ast.Starred) and imports.get(nm.split('.')[0]) in ('dataclasses', 'dataclasses.' + nm):
+                v = self.eval(e.args[0], fi, sc)
+                if isinstance(v, _Rec) and v.ci is not None and not _is_enum(v.ci):
+                    flds = [k for k in v.ci.all_fields() if k in v.fields and not k.startswith('_')]
+                    return self.construct(v.ci, [], {**{k: v.fields[k] for k in flds}, **{k.arg: self.eval(k.value, fi, sc) for k in e.keywords}})
+                raise _Undecidable(f'{nm} of this value')
             if nm.split('.')[-1] in ('astuple', 'asdict') and len(e.args) == 1 and plain and \
-                    fi.module.imports.get(nm.split('.')[0]) in ('dataclasses', 'dataclasses.' + nm):
+                    imports.get(nm.split('.')[0]) in ('dataclasses', 'dataclasses.' + nm):
                 v = self.eval(e.args[0], fi, sc)
                 if isinstance(v, _Rec) and not any(isinstance(x, (_Rec, list, dict, tuple, set)) for x in v.fields.values()):
                     order = [k for k in v.ci.all_fields() if k in v.fields]
@@ -1973,6 +2633,18 @@ def _c14_interp(prog):
                         out.append(self.eval_call(call, fi, sc + [dict(zip(names, r))]))
                     return out
                 args = [self.eval(a, fi, sc) for a in e.args]
+                if e.func.id in ('getattr', 'hasattr') and len(args) in (2, 3) and isinstance(args[1], str) and \
+                        (self.is_nt(args[0]) or isinstance(args[0], _Mod)):
+                    try:
+                        v = getattr(args[0], args[1]) if self.is_nt(args[0]) and args[1] in type(args[0])._fields \
+                            else self.member(args[0], args[1]) if isinstance(args[0], _Mod) else None
+                        if v is None and self.is_nt(args[0]):
+                            raise _Undecidable(f'attribute {args[1]} of a {type(args[0]).__name__}')
+                        return True if e.func.id == 'hasattr' else v
+                    except _Undecidable:
+                        if isinstance(args[0], _Mod) and e.func.id == 'hasattr':
+                            return False
+                        raise
                 if e.func.id in ('getattr', 'hasattr') and len(args) in (2, 3) and isinstance(args[0], _Rec) and isinstance(args[1], str):
                     if e.func.id == 'hasattr':
                         return args[1] in args[0].fields
@@ -1985,6 +2657,53 @@ def _c14_interp(prog):
                     args[0].fields[args[1]] = args[2]
                     return None
                 raise _Undecidable(f'{e.func.id} on {args[:1]!r}')
+            if nm.startswith(LOG_CALLS):
+                return None
+            if isinstance(e.func, ast.Name) and e.func.id == 'isinstance' and len(e.args) == 2 and plain \
+                    and not any('isinstance' in s_ for s_ in sc):
+                v, spec = self.eval(e.args[0], fi, sc), self.eval(e.args[1], fi, sc)
+                return self.instance_of(v, spec)
+            if isinstance(e.func, ast.Attribute):
+                try:
+                    recv, attr = self.eval(e.func.value, fi, sc), e.func.attr     # a (dotted / held) name: no effects
+                except _Undecidable:
+                    return super().eval_call(e, fi, sc)
+                rec_cls = isinstance(recv, _ClassRef) and not _is_enum(recv.ci) and self.nt_home(recv.ci) is not None
+                safe = type(recv) in (list, dict) and attr in ('append', 'extend', 'insert', 'get', 'copy', 'keys', 'values', 'items', 'setdefault')
+                if isinstance(recv, _Mod) or self.is_nt(recv) or (rec_cls and attr == '_make') or safe:
+                    args = []
+                    for a in e.args:
+                        if isinstance(a, ast.Starred):
+                            args.extend(self.iterate(self.eval(a.value, fi, sc)))
+                        else:
+                            args.append(self.eval(a, fi, sc))
+                    kwargs = {}
+                    for k in e.keywords:
+                        if k.arg is None:
+                            kwargs.update(self.eval(k.value, fi, sc))
+                        else:
+                            kwargs[k.arg] = self.eval(k.value, fi, sc)
+                    if isinstance(recv, _Mod):
+                        return self.call_value(self.member(recv, attr), args, kwargs, e, fi, sc)
+                    if rec_cls:
+                        return self.guard(self.nt_type(recv.ci)._make, args, kwargs)
+                    if safe:       # the container keeps or hands back what it is given; it calls nothing
+                        return self.guard(getattr(recv, attr), args, kwargs)
+                    if attr in ('_replace', '_asdict', 'index', 'count'):
+                        return self.guard(getattr(recv, attr), args, kwargs)
+                    home = self._nt_types[type(recv)]
+                    if home is not None and self._method_node(home, attr)[1] is not None:
+                        return self.call_method(home, attr, recv, args, kwargs)
+                    raise _Undecidable(f'method {attr} of a {type(recv).__name__}')
+            else:
+                f = self.eval(e.func, fi, sc)
+                if f is _collections.namedtuple or (isinstance(f, type) and f in self._nt_types):
+                    if any(isinstance(a, ast.Starred) for a in e.args) or any(k.arg is None for k in e.keywords):
+                        raise _Undecidable(f'call of {nm}')
+                    r = self.guard(f, [self.eval(a, fi, sc) for a in e.args], {k.arg: self.eval(k.value, fi, sc) for k in e.keywords})
+                    if f is _collections.namedtuple:
+                        self._nt_types.setdefault(r, None)
+                    return r
             return super().eval_call(e, fi, sc)
 
         def assign(self, t, v, fi, sc):
@@ -2154,6 +2873,16 @@ def _filter_table():
     return rows
 
 
+_FAILURES = (TypeError, KeyError, IndexError, AttributeError, ZeroDivisionError, UnboundLocalError)
+
+
+def _failure(exc) -> str | None:
+    """text for an exception that is a failure of the code (not a refusal of the input), else None"""
+    if isinstance(exc, _FAILURES):
+        return f'{type(exc).__name__}({str(exc)[:90]})'
+    return None
+
+
 def _make_filter(prog, _Rec, spec):
     fm = prog.module(F)
     cls, bb = fm.cls('Filter'), fm.cls('BoundingBox')
@@ -2199,10 +2928,11 @@ def rule_filter_evaluated(ctx):
                     interp.steps = 0
                     again = interp.call_method(ts.cls, 'to_sql', rec, [], {'table': table} if table else {})
                 except _Raised as ex:
-                    if not isinstance(ex.exc, (ValueError, AssertionError)):
+                    if not isinstance(ex.exc, (ValueError, AssertionError)) and not _failure(ex.exc):
                         raise
                     if bad is None:
-                        bad = (spec, table, f'this legal filter is refused: {type(ex.exc).__name__}({str(ex.exc)[:80]})')
+                        bad = (spec, table, f'this legal filter is refused: {type(ex.exc).__name__}({str(ex.exc)[:80]})'
+                               if not _failure(ex.exc) else f'building the conditions of this legal filter fails: {_failure(ex.exc)}')
                     continue
                 if not (isinstance(first, tuple) and len(first) == 2 and isinstance(first[0], str) and isinstance(first[1], list)):
                     raise _Undecidable(f'to_sql returned {first!r}')
@@ -2318,9 +3048,12 @@ def rule_queries_evaluated(ctx):
                 if handed is None:
                     handed = (r[1], list(r[1]))
             except _Raised as ex:
-                if not isinstance(ex.exc, ValueError):
+                if isinstance(ex.exc, ValueError):
+                    out.append('ValueError')
+                elif _failure(ex.exc):
+                    out.append(f'building the statement fails: {_failure(ex.exc)}')
+                else:
                     raise
-                out.append('ValueError')
         # the list handed out belongs to the caller (the statement may run later: results are lazy): change a setting,
         # build again, and the first list must still be what it was
         moved = next((k for k in ('start_date', 'end_date') if rec.fields.get(k) is not None), None)
@@ -2358,8 +3091,8 @@ def rule_queries_evaluated(ctx):
             verdict('C14-R1', qs, 'Query.to_sql built twice gives the same statement', a == b,
                     'same SQL and parameters' if a == b else f'with {show(cfg)} the second to_sql() differs from the first: '
                     f'{str(b)[:120]} vs {str(a)[:120]}')
-            if a == 'ValueError':
-                verdict('C14-R6', qs, 'legal settings are accepted', False, f'{show(cfg)} is refused with ValueError')
+            if isinstance(a, str):
+                verdict('C14-R6', qs, 'legal settings are accepted', False, f'{show(cfg)} is refused with ValueError' if a == 'ValueError' else f'with {show(cfg)}: {a}')
                 continue
             sql, params = a
             cl = _clauses(_norm_sql(sql))
@@ -2399,7 +3132,7 @@ def rule_queries_evaluated(ctx):
             a, _ = run('Query', cfg)
             counts['Query'] += 1
             verdict('C14-R6', qs, 'illegal settings are refused', a == 'ValueError', 'ValueError for sample outside (0, 1], every_nth < 1, '
-                    'limit < 1, offset < 0, offset without limit' if a == 'ValueError' else f'{show(cfg)} is accepted')
+                    'limit < 1, offset < 0, offset without limit' if a == 'ValueError' else f'{show(cfg)} is accepted' if not isinstance(a, str) else f'with {show(cfg)}: {a}')
         # ---- CountQuery
         for filt, start, end in itertools.product(filters, (None, d1), (None, d2)):
             cfg = {'filter': filt, 'start_date': start, 'end_date': end}
@@ -2407,8 +3140,8 @@ def rule_queries_evaluated(ctx):
             counts['CountQuery'] += 1
             verdict('C14-R1', cq, 'CountQuery.to_sql built twice gives the same statement', a == b, 'same SQL and parameters' if a == b else
                     f'with {show(cfg)} the second to_sql() differs from the first')
-            if a == 'ValueError':
-                verdict('C14-R4', cq, 'count query counts instances with the same joins', False, f'{show(cfg)} is refused')
+            if isinstance(a, str):
+                verdict('C14-R4', cq, 'count query counts instances with the same joins', False, f'{show(cfg)} is refused' if a == 'ValueError' else f'with {show(cfg)}: {a}')
                 continue
             cl = _clauses(_norm_sql(a[0]))
             want = _documented_common(cfg, filter_conj(filt))
@@ -2427,8 +3160,8 @@ def rule_queries_evaluated(ctx):
             counts['FrequentFlightQuery'] += 1
             verdict('C14-R1', ff, 'FrequentFlightQuery.to_sql built twice gives the same statement', a == b, 'same SQL and parameters' if a == b else
                     f'with {show(cfg)} the second to_sql() differs from the first')
-            if a == 'ValueError':
-                verdict('C14-R4', ff, 'frequent routes: count per direction-independent pair, descending', False, f'{show(cfg)} is refused')
+            if isinstance(a, str):
+                verdict('C14-R4', ff, 'frequent routes: count per direction-independent pair, descending', False, f'{show(cfg)} is refused' if a == 'ValueError' else f'with {show(cfg)}: {a}')
                 continue
             s_ = _norm_sql(a[0])
             m_ = re.match(r'^with counts as \( (.*) \) select (.*)$', s_)
@@ -2540,7 +3273,7 @@ def rule_spatial(ctx):
         for r in range(4):
             cases.append(tuple(tuple(K[(r + p + j) % 4] for j in range(cnt)) for p, cnt in enumerate(pat)))
     n = 0
-    bad = None
+    bad = broken = None
     strs_ok = True
     regions = set()
     try:
@@ -2566,8 +3299,10 @@ def rule_spatial(ctx):
                 interp.call_method(cls, '_normalize', rec, [], {})
                 got_ok = True
             except _Raised as r:
-                if not isinstance(r.exc, ValueError):
+                if not isinstance(r.exc, ValueError) and not (want_ok and _failure(r.exc)):
                     raise
+                if not isinstance(r.exc, ValueError) and broken is None:
+                    broken = (cs, os_, ds, _failure(r.exc))
                 got_ok = False
             n += 1
             if got_ok != want_ok and bad is None:
@@ -2584,6 +3319,8 @@ def rule_spatial(ctx):
         desc = '; '.join(f'{nm_}: {", ".join(x) or "none"}' for nm_, x in (('combined', cs), ('origin', os_), ('destination', ds)))
         why = (f'the compatibility rule of spatial filters changed: with [{desc}] the documentation '
                + ('allows the filter but it is refused' if want_ok else 'refuses the filter but it is accepted (the conditions are then AND-ed silently)'))
+        if broken is not None and broken[:3] == bad[:3]:
+            why = f'with [{desc}] the documentation allows the filter but checking it fails: {broken[3]}' 
     ctx.ob('C14-R5', nm, 'spatial compatibility: one combined filter, or at most one origin and one destination', bad is None, why)
     ctx.ob('C14-R5', nm, 'single strings become one-element lists', strs_ok,
            'every str-valued region filter is a list after normalisation' if strs_ok else
@@ -2904,6 +3641,8 @@ def rule_criteria_values(ctx):
                         fail(attr, '', None, f'Filter({shown}).to_sql()',
                              f'building the condition of this filter fails: {type(ex.exc).__name__}({str(ex.exc)[:80]}) - an attribute '
                              f'that is not set is read where {attr} is meant')
+                    elif _failure(ex.exc):
+                        fail(attr, '', None, f'Filter({shown}).to_sql()', f'building the condition of this legal filter fails: {_failure(ex.exc)}')
                     else:
                         raise
                     continue
@@ -2955,11 +3694,16 @@ def rule_criteria_values(ctx):
 
 
 def run(ctx):
-    rule_criteria_values(ctx)
-    rule_cursor(ctx)
-    rule_is_set(ctx)
-    rule_pure(ctx)
-    rule_unpack(ctx)
-    rule_placeholders(ctx)
-    rule_columns(ctx)
+    # every group of rules gets its turn: a group that cannot decide (analysis error) does not keep the others from
+    # establishing what they can; the first such error is raised again at the end (a violation established by any
+    # group then still stands, an all-clear does not)
+    from ..loader import AnalysisError
+    first = None
+    for group in (rule_criteria_values, rule_cursor, rule_is_set, rule_pure, rule_unpack, rule_placeholders, rule_columns):
+        try:
+            group(ctx)
+        except AnalysisError as e:
+            first = first or e
+    if first is not None:
+        raise first
     ctx.assumptions += ['SQL semantics / SQLite planner are trusted; the rules decide the text/parameter construction only']
